@@ -4,30 +4,48 @@ PRELUDE = r'''
 // ---- tendermint / crypto shim (trusted): small finite stand-ins with the same names and field layout ----
 pub const MAXV: usize = 2;   // bound on validators and on commit signatures in this unit's harnesses
 
+/// fixed-capacity list standing in for Vec (iteration only): avoids heap modelling in CBMC
+#[derive(Clone, Copy, Debug)]
+pub struct List<T: Copy> { pub items: [Option<T>; MAXV], pub n: usize }
+impl<T: Copy> List<T> {
+    pub fn new() -> Self { List { items: [None; MAXV], n: 0 } }
+    pub fn push(&mut self, v: T) { assert!(self.n < MAXV); self.items[self.n] = Some(v); self.n += 1; }
+    pub fn len(&self) -> usize { self.n }
+    pub fn iter(&self) -> ListIter<'_, T> { ListIter { l: self, i: 0 } }
+    pub fn at(&self, i: usize) -> &T { self.items[i].as_ref().unwrap() }
+}
+pub struct ListIter<'a, T: Copy> { l: &'a List<T>, i: usize }
+impl<'a, T: Copy> Iterator for ListIter<'a, T> {
+    type Item = &'a T;
+    fn next(&mut self) -> Option<&'a T> { if self.i < self.l.n { let r = self.l.items[self.i].as_ref(); self.i += 1; r } else { None } }
+}
+impl<'a, T: Copy> IntoIterator for &'a List<T> { type Item = &'a T; type IntoIter = ListIter<'a, T>; fn into_iter(self) -> ListIter<'a, T> { self.iter() } }
+
 /// association list standing in for std::collections::HashMap (same API subset: collect, get)
-pub struct HashMap<K, V> { pub items: Vec<(K, V)> }
-impl<K: PartialEq, V> FromIterator<(K, V)> for HashMap<K, V> {
+pub struct HashMap<K: Copy, V: Copy> { pub items: List<(K, V)> }
+impl<K: PartialEq + Copy, V: Copy> FromIterator<(K, V)> for HashMap<K, V> {
     fn from_iter<I: IntoIterator<Item = (K, V)>>(iter: I) -> Self {
-        let mut items: Vec<(K, V)> = Vec::new();
+        let mut items: List<(K, V)> = List::new();
         for kv in iter { items.push(kv); }
         HashMap { items }
     }
 }
-impl<K: PartialEq, V> HashMap<K, V> {
+impl<K: PartialEq + Copy, V: Copy> HashMap<K, V> {
     /// a later entry with the same key replaces an earlier one, as in std: return the last match
     pub fn get(&self, k: &K) -> Option<&V> {
         let mut res = None;
-        for it in self.items.iter() { if it.0 == *k { res = Some(&it.1); } }
+        let mut i = 0;
+        while i < self.items.n { let it = self.items.items[i].as_ref().unwrap(); if it.0 == *k { res = Some(&it.1); } i += 1; }
         res
     }
 }
 /// std::collections::HashSet stand-in (insert returns whether the value was new)
-pub struct HashSet<K> { pub items: Vec<K> }
-impl<K: PartialEq> HashSet<K> {
-    pub fn new() -> Self { HashSet { items: Vec::new() } }
-    pub fn with_capacity(_n: usize) -> Self { HashSet { items: Vec::new() } }
-    pub fn insert(&mut self, k: K) -> bool { for it in self.items.iter() { if *it == k { return false; } } self.items.push(k); true }
-    pub fn contains(&self, k: &K) -> bool { for it in self.items.iter() { if *it == *k { return true; } } false }
+pub struct HashSet<K: Copy> { pub items: List<K> }
+impl<K: PartialEq + Copy> HashSet<K> {
+    pub fn new() -> Self { HashSet { items: List::new() } }
+    pub fn with_capacity(_n: usize) -> Self { HashSet { items: List::new() } }
+    pub fn insert(&mut self, k: K) -> bool { let mut i = 0; while i < self.items.n { if *self.items.at(i) == k { return false; } i += 1; } self.items.push(k); true }
+    pub fn contains(&self, k: &K) -> bool { let mut i = 0; while i < self.items.n { if *self.items.at(i) == *k { return true; } i += 1; } false }
 }
 
 pub mod astria_core { pub mod crypto { #[derive(Debug, Clone, Copy)] pub struct Error; } }
@@ -84,8 +102,8 @@ pub mod tendermint {
             BlockIdFlagCommit { validator_address: super::account::Id, timestamp: super::Time, signature: Option<super::TmSignature> },
             BlockIdFlagNil { validator_address: super::account::Id, timestamp: super::Time, signature: Option<super::TmSignature> },
         }
-        #[derive(Clone, Debug)]
-        pub struct Commit { pub height: Height, pub round: Round, pub block_id: Id, pub signatures: Vec<CommitSig> }
+        #[derive(Clone, Copy, Debug)]
+        pub struct Commit { pub height: Height, pub round: Round, pub block_id: Id, pub signatures: crate::List<CommitSig> }
     }
     pub mod vote {
         #[derive(Clone, Copy, Debug, PartialEq, Eq)] pub enum Type { Prevote, Precommit }
@@ -101,7 +119,7 @@ pub mod tendermint {
     }
 }
 pub mod tendermint_rpc { pub mod endpoint { pub mod validators {
-    pub struct Response { pub block_height: crate::tendermint::block::Height, pub validators: Vec<crate::tendermint::validator::Info> }
+    pub struct Response { pub block_height: crate::tendermint::block::Height, pub validators: crate::List<crate::tendermint::validator::Info> }
 } } }
 pub mod sequencer_client { pub mod tendermint_proto { pub mod types {
     /// protobuf encoding of the canonical vote: identity here (prost encoding trusted to be injective)
@@ -130,16 +148,18 @@ HARNESS = r'''
     fn setup() -> (Commit, tendermint_rpc::endpoint::validators::Response, tm::chain::Id) {
         let nv: usize = kani::any();
         kani::assume(nv <= MAXV);
-        let mut validators = Vec::new();
+        let mut validators = List::new();
         let mut i = 0;
         while i < nv {
             let pk = tm::PublicKey(kani::any());
             validators.push(Info { address: tm::account::Id::from(pk), pub_key: pk, power: kani::any() });
             i += 1;
         }
+        // precondition: a CometBFT validator set lists every validator once
+        if nv == 2 { kani::assume(validators.at(0).pub_key != validators.at(1).pub_key); }
         let ns: usize = kani::any();
         kani::assume(ns <= MAXV);
-        let mut signatures = Vec::new();
+        let mut signatures = List::new();
         let mut j = 0;
         while j < ns { signatures.push(any_sig()); j += 1; }
         let commit = Commit { height: Height(kani::any()), round: tm::block::Round(kani::any()), block_id: tm::block::Id(kani::any()), signatures };
@@ -158,7 +178,7 @@ HARNESS = r'''
                 if c.ok && c.key == v.pub_key.0 {
                     let mut j = 0;
                     while j < commit.signatures.len() {
-                        if let CommitSig::BlockIdFlagCommit { validator_address, timestamp, signature: Some(s) } = commit.signatures[j] {
+                        if let CommitSig::BlockIdFlagCommit { validator_address, timestamp, signature: Some(s) } = *commit.signatures.at(j) {
                             if validator_address == tm::account::Id::from(v.pub_key) && s.0 == c.sig
                                 && c.msg == (tm::vote::CanonicalVote { vote_type: tm::vote::Type::Precommit, height: commit.height, round: commit.round,
                                                                        block_id: Some(commit.block_id), timestamp: Some(timestamp), chain_id }) {
@@ -186,12 +206,12 @@ HARNESS = r'''
             let mut signed: u128 = 0;
             let mut i = 0;
             while i < set.validators.len() {
-                let v = &set.validators[i];
+                let v = set.validators.at(i);
                 total += v.power as u128;
                 // a validator listed twice in the set is counted once
                 let mut dup = false;
                 let mut p = 0;
-                while p < i { if set.validators[p].pub_key == v.pub_key { dup = true; } p += 1; }
+                while p < i { if set.validators.at(p).pub_key == v.pub_key { dup = true; } p += 1; }
                 if !dup && validly_signed(v, &commit, chain_id) { signed += v.power as u128; }
                 i += 1;
             }
@@ -230,5 +250,6 @@ UNIT = dict(
         "validator address = injective function of the public key (H-inj); keys, signatures, ids are 8-bit values",
         "HashMap/HashSet replaced by association lists with the same collect/get/insert semantics",
         "protobuf encoding of CanonicalVote is injective (identity in the shim)",
+        "precondition: the validator set returned by the sequencer RPC lists every validator (public key) once",
     ],
 )
